@@ -112,9 +112,11 @@ pub fn archive_string() -> BoxedStrategy<String> {
         .filter(|s| is_sjis_lossless(s))
         .collect();
     prop_oneof![
-        5 => proptest::sample::select(pool),
-        3 => sjis_string(6),
-        1 => sjis_string(24),
+        20 => proptest::sample::select(pool),
+        12 => sjis_string(6),
+        4 => sjis_string(24),
+        // long strings (60..=140 characters, single- and double-byte mixed: every alignment of a double-byte character occurs)
+        1 => proptest::collection::vec(prop_oneof![2 => sjis_char(), 1 => proptest::sample::select(sjis_domain().double.clone())], 60..=140).prop_map(|v| v.into_iter().collect::<String>()),
     ]
     .boxed()
 }
